@@ -461,7 +461,7 @@ def replay_mm(model, seed, inst):
             return max(1, min(64, int(str(model.get(nm, d)))))
         except Exception:
             return d
-    shapes = [(mv("n", 24), mv("m", 8), mv("p", 8)), (24, 24, 24), (24, 8, 16), (3, 5, 2), (32, 16, 8), (17, 8, 8)]
+    shapes = [(mv("n", 24), mv("m", 8), mv("p", 8)), (24, 24, 24), (24, 8, 16), (3, 5, 2), (32, 16, 8), (17, 8, 8), (24, 1, 8), (4, 1, 3)]
     for (n, m, p) in shapes:
         lead = [] if inst["entry"] == "aten.mm" else [2]
         a = torch.randn(lead + [n, m])
@@ -469,6 +469,10 @@ def replay_mm(model, seed, inst):
         def mk(t, q, axis):
             if q == "plain":
                 return t
+            if q.endswith(".t"):
+                tt = t.transpose(-2, -1).contiguous()
+                src_axis = None if axis is None else (-1 if axis == 0 else 0)
+                return SymmetricQuantizer.apply(tt, qtypes[q[:-2]], src_axis, absmax_scale(tt, qtypes[q[:-2]], src_axis)).transpose(-2, -1)
             return SymmetricQuantizer.apply(t, qtypes[q], axis, absmax_scale(t, qtypes[q], axis))
         try:
             qa_, qb_ = mk(a, inst["a"], inst["axis_a"]), mk(b, inst["b"], inst["axis_b"])
